@@ -53,7 +53,7 @@ def selftest():
 
 def REQUIRED_COVER(tier):
     return ({f'pruned-mask:{m}' for m in range(1, 8)} | {f'ancestor-mask:{m}' for m in range(1, 8)} |
-            {'type:lib', 'type:mproof', 'type:mupdate', 'layers:3', 'route:boc', 'route:boc+hashes', 'update:sides-differ', 'update:sides-equal', 'twin'})
+            {'type:lib', 'type:mproof', 'type:mupdate', 'layers:3', 'route:boc', 'route:boc+hashes', 'route:derived', 'update:sides-differ', 'update:sides-equal', 'twin'})
 
 
 # ------------------------------------------------------------------ terms
@@ -183,6 +183,15 @@ def check_tree(rec, rc, fn, args, tag):
                 rec.violation(f'{tag}:observe:{route}', f'get_hash/get_depth raised on {r!r} type {r.type} mask {r.mask}: {exc_name(e)}: {e}', fn, args)
                 return False
             want = ref_levels(r)
+            # the explicitly recomputed representation (hash) is the one of the cell's own level, for every cell type
+            try:
+                if lc.calculate_representation_hash() != r.hash() or lc.get_representation() != r.representation():
+                    rec.violation(f'{tag}:representation', f'cell type {r.type} mask {r.mask} in {rc!r} via {route}: calculate_representation_hash() / get_representation() '
+                                  f'is not the representation whose SHA-256 is the cell\'s hash', fn, args)
+                    return False
+            except Exception as e:
+                rec.violation(f'{tag}:representation', f'cell type {r.type} mask {r.mask} in {rc!r} via {route}: get_representation raised {exc_name(e)}: {e}', fn, args)
+                return False
             if got != want or lc.hash != r.hash():
                 what = 'mask' if got[0] != want[0] else next((f'hash({l})' for l in range(4) if got[1][l] != want[1][l]),
                                                               next((f'depth({l})' for l in range(4) if got[2][l] != want[2][l]), 'hash'))
@@ -190,6 +199,33 @@ def check_tree(rec, rc, fn, args, tag):
                               f'(lib mask {got[0]}, depths {got[2]} vs ref {want[2]})', fn, args)
                 rec.outcome('DISAGREE')
                 return False
+            if route == 'builder':
+                # objects DERIVED from the cell are the same cell: type, level mask and every per-level hash / depth survive a copy and a
+                # trip through a slice (the library itself returns slice.to_cell() for special slices, e.g. pruned transactions)
+                from pytoniq_core.boc import Slice, Builder
+                derived = [('copy', lambda: lc.copy()), ('begin_parse.to_cell', lambda: lc.begin_parse().to_cell()), ('Slice.from_cell.to_cell', lambda: Slice.from_cell(lc).to_cell()),
+                           ('slice.copy.to_cell', lambda: lc.begin_parse().copy().to_cell()), ('to_slice.to_cell', lambda: lc.to_slice().to_cell())]
+                if r.special:
+                    def via_builder_slice(lc=lc, r=r):
+                        b = Builder(type_=r.type).store_bits(r.bits)
+                        for x in lc.refs:
+                            b.store_ref(x)
+                        return b.to_slice().to_cell()
+                    derived.append(('Builder(type_).to_slice.to_cell', via_builder_slice))
+                for dname, thunk in derived:
+                    rec.trans()
+                    try:
+                        dc = thunk()
+                        dgot = (lib_levels(dc), dc.hash, dc.type_, dc.is_exotic)
+                    except Exception as e:
+                        rec.violation(f'{tag}:derived-raises:{dname}', f'cell type {r.type} mask {r.mask} in {rc!r}: {dname} raised {exc_name(e)}: {e}', fn, args)
+                        return False
+                    if dgot != (want, r.hash(), lc.type_, lc.is_exotic):
+                        rec.violation(f'{tag}:derived:{dname}', f'cell type {r.type} mask {r.mask} in {rc!r}: the cell obtained by {dname} is another cell '
+                                      f'(type {dc.type_}, mask {dgot[0][0]} vs type {lc.type_}, mask {want[0]})', fn, args)
+                        rec.outcome('DISAGREE')
+                        return False
+                rec.covered('route:derived')
     rec.outcome('agree')
     return True
 
